@@ -324,7 +324,7 @@ def run_check(prop, tier='quick', seed=None, replay=None):
     t0 = time.time()
     mod = importlib.import_module('props.' + prop.lower())
     seed = int(os.environ.get('VERIF_SEED', '20260926')) if seed is None else seed
-    ev_path = os.path.join(ROOT, 'evidence', prop + '.json')
+    ev_path = os.path.join(ROOT, 'evidence' if REPO == '/repo' else 'replays/scratch_evidence', prop + '.json')
     if os.path.exists(ev_path) and not replay:
         os.remove(ev_path)
     findings = Findings()
